@@ -325,6 +325,8 @@ var classifyPool = []struct {
 	{"\u09a6\u09c7\u0996\u09be\u0993 x;", 2, ""},
 	{"\u09a6\u09c7\u0996\u09be\u0993 1 / 0;", 2, ""},
 	{"\u09a6\u09c7\u0996\u09be\u0993 -\"50%\";", 2, ""},
+	{"\u09ab\u09be\u0982\u09b6\u09a8 big(" + manyParams(256) + ") { }", 1, ""}, // more than 255 parameters
+	{"\u09ab\u09be\u0982\u09b6\u09a8 ok(" + manyParams(255) + ") { }", 0, ""},
 	// a NUL character is an ordinary character inside a string and inside a comment
 	{"\u09a6\u09c7\u0996\u09be\u0993 \"a\x00b\";", 0, "a\x00b\n"},
 	{"\u09a6\u09c7\u0996\u09be\u0993 7; // c\x00 \u09a6\u09c7\u0996\u09be\u0993 5;", 0, "7\n"},
@@ -470,4 +472,38 @@ func VH_inputLong(nbytes int) {
 	verifRunMain()
 	verifAssert("each-read-consumes-exactly-the-next-line", verifProcStdout() == long+"\n50%> second\n")
 	verifAssert("reads-succeed", verifProcExit() == 0 && verifProcStderr() == "")
+}
+
+func manyParams(n int) string {
+	out := ""
+	for i := 0; i < n; i++ {
+		if i > 0 {
+			out += ", "
+		}
+		out += fmt.Sprintf("p%d", i)
+	}
+	return out
+}
+
+// VH_replDeep (C20): a session whose first lines each define a recursive function, recurse
+// `depth` calls deep and fail at the bottom (division by zero), `times` times over; then lines
+// that use only literals and built-ins. However deep and however often earlier lines failed,
+// the later lines respond as in a fresh session.
+func VH_replDeep(depth int, times int) {
+	failing := fmt.Sprintf("\u09ab\u09be\u0982\u09b6\u09a8 f(n) { \u09af\u09a6\u09bf (n == 0) { \u09ab\u09c7\u09b0\u09a4 1/0; } \u09ab\u09c7\u09b0\u09a4 f(n-1); } f(%d);", depth)
+	lines := []string{}
+	for i := 0; i < times; i++ {
+		lines = append(lines, failing)
+	}
+	lines = append(lines, replPool[7], replPool[0], replPool[1])
+	verifSetArgs("borno")
+	verifSetStdinText(lines...)
+	verifRunMain()
+	want := ""
+	for i := 0; i < times; i++ {
+		want += ">> "
+	}
+	want += ">> 3\n>> 3\n>> hi\n>> "
+	verifAssert("session-exits-0", verifProcExit() == 0)
+	verifAssert("every-line-responds-as-in-a-fresh-session", verifProcStdout() == want)
 }
